@@ -9,7 +9,7 @@ from ..cfg import CFG, Node, STMT, TEST, FOR, run_typestate, fmt_path
 from ..flow import o_param, fmt_origin
 from ..model import stmt_key, AnalysisError, FuncInfo
 from ..report import rule, Collector
-from .common import RuleCtx, where_of, line_of, hits, chain
+from .common import RuleCtx, where_of, line_of, hits, chain, LoopElems, flat_sequence_parts
 from .eff import _functions
 
 U = ast.unparse
@@ -23,23 +23,26 @@ def norm(e: ast.AST) -> str:
 def iteration_events(fn: ast.FunctionDef, selfn: str, container: str):
     """Find iterations over `self.<container>`: returns list of dicts with the enclosing statement, the direction
     ('fwd' / 'rev' / 'partial'), the loop variable and the set of method names invoked on the loop variable
-    (called directly, or passed as a bound-method callback to another call), and whether a filter is present."""
+    (called directly, or passed as a bound-method callback to another call), and whether a filter is present.
+    The container may be walked alone, in lockstep with others (zip / enumerate), as one part of a concatenation
+    (A + B, (*A, *B)), or by position (range(len(...)))."""
     out = []
+    full = f"{selfn}.{container}"
 
     def classify(it: ast.AST):
+        if isinstance(it, ast.Name):
+            # a local holding the sequence (single definition in this function)
+            defs = [n.value for n in ast.walk(fn) if isinstance(n, ast.Assign) and len(n.targets) == 1
+                    and isinstance(n.targets[0], ast.Name) and n.targets[0].id == it.id]
+            bound_elsewhere = [n for n in ast.walk(fn) if isinstance(n, ast.Name) and n.id == it.id
+                               and isinstance(n.ctx, ast.Store)]
+            if len(defs) == 1 and len(bound_elsewhere) == 1:
+                it = defs[0]
         t = norm(it)
-        full = f"{selfn}.{container}"
-        # concatenation of several signal lists: self.sig_out + self.sig_in
-        if isinstance(it, ast.BinOp) and isinstance(it.op, ast.Add):
-            parts = []
-            stack = [it]
-            while stack:
-                x = stack.pop()
-                if isinstance(x, ast.BinOp) and isinstance(x.op, ast.Add):
-                    stack += [x.left, x.right]
-                else:
-                    parts.append(norm(x))
-            if full in parts or f"list({full})" in parts:
+        parts = flat_sequence_parts(it)
+        if parts is not None:
+            ps = [norm(x) for x in parts]
+            if full in ps or f"list({full})" in ps:
                 return "fwd"
         if t == full or t in (f"list({full})", f"iter({full})", f"tuple({full})"):
             return "fwd"
@@ -52,7 +55,6 @@ def iteration_events(fn: ast.FunctionDef, selfn: str, container: str):
     def classify_index(it: ast.AST):
         """for i in range(len(self.X)) / reversed(range(len(self.X))) / range(len(self.X)-1, -1, -1)"""
         t = norm(it)
-        full = f"{selfn}.{container}"
         if t == f"range(len({full}))":
             return "fwd"
         if t in (f"reversed(range(len({full})))", f"range(len({full})-1,-1,-1)"):
@@ -73,36 +75,40 @@ def iteration_events(fn: ast.FunctionDef, selfn: str, container: str):
                             passed.add((a.attr, U(n.func)))
         return called, passed
 
+    def has_exit(body):
+        return any(isinstance(x, (ast.Break, ast.Continue, ast.Return)) for b in body for x in ast.walk(b))
+
     for n in ast.walk(fn):
         if isinstance(n, (ast.ListComp, ast.GeneratorExp, ast.SetComp)):
             if len(n.generators) != 1:
                 continue
             g = n.generators[0]
-            d = classify(g.iter)
-            if d is None or not isinstance(g.target, ast.Name):
-                continue
-            called, passed = invoked([n.elt], g.target.id)
-            out.append({"node": n, "dir": d, "called": called, "passed": passed, "filtered": bool(g.ifs)})
+            le = LoopElems(g.target, g.iter)
+            for var, seq in le.elems.items():
+                d = classify(seq)
+                if d is None:
+                    continue
+                called, passed = invoked([n.elt], var)
+                out.append({"node": n, "dir": d, "called": called, "passed": passed, "filtered": bool(g.ifs)})
         elif isinstance(n, ast.For):
             di = classify_index(n.iter) if isinstance(n.target, ast.Name) else None
-            d = None if di is not None else classify(n.iter)
             if di is not None:
-                if True:
-                    # calls on self.X[i]
-                    called, passed = set(), set()
-                    for b in n.body:
-                        for x in ast.walk(b):
-                            if isinstance(x, ast.Call) and isinstance(x.func, ast.Attribute) and \
-                                    norm(x.func.value) == f"{selfn}.{container}[{n.target.id}]":
-                                called.add(x.func.attr)
-                    has_exit = any(isinstance(x, (ast.Break, ast.Continue, ast.Return)) for b in n.body for x in ast.walk(b))
-                    out.append({"node": n, "dir": di, "called": called, "passed": passed, "filtered": has_exit})
+                # calls on self.X[i]
+                called, passed = set(), set()
+                for b in n.body:
+                    for x in ast.walk(b):
+                        if isinstance(x, ast.Call) and isinstance(x.func, ast.Attribute) and \
+                                norm(x.func.value) == f"{full}[{n.target.id}]":
+                            called.add(x.func.attr)
+                out.append({"node": n, "dir": di, "called": called, "passed": passed, "filtered": has_exit(n.body)})
                 continue
-            if d is None or not isinstance(n.target, ast.Name):
-                continue
-            called, passed = invoked(n.body, n.target.id)
-            has_exit = any(isinstance(x, (ast.Break, ast.Continue, ast.Return)) for b in n.body for x in ast.walk(b))
-            out.append({"node": n, "dir": d, "called": called, "passed": passed, "filtered": has_exit})
+            le = LoopElems(n.target, n.iter)
+            for var, seq in le.elems.items():
+                d = classify(seq)
+                if d is None:
+                    continue
+                called, passed = invoked(n.body, var)
+                out.append({"node": n, "dir": d, "called": called, "passed": passed, "filtered": has_exit(n.body)})
     return out
 
 
@@ -128,6 +134,33 @@ def callback_invoked(ctx: RuleCtx, cls, callee_text: str, selfn: str) -> bool:
     return bool(call_nodes) and cfg.must_pass(cfg.entry, cfg.exit, call_nodes)
 
 
+def _closure_run_nodes(ctx: RuleCtx, cls, f: FuncInfo, cfg: CFG, inner: ast.AST, selfn: str) -> List[Node]:
+    """CFG nodes of `f` at which the statement `inner` (located in a closure defined directly in f) is certain to run"""
+    for g in [n for n in ast.walk(f.node) if isinstance(n, ast.FunctionDef) and n is not f.node]:
+        if not any(x is inner for x in ast.walk(g)):
+            continue
+        if g.args.args or g.args.kwonlyargs or g.args.vararg or g.args.kwarg:
+            return []
+        gcfg = CFG(g)
+        gn = gcfg.node_of(inner)
+        if gn is None or not gcfg.must_pass(gcfg.entry, gcfg.exit, [gn]):
+            return []
+        out = []
+        for nd in cfg.simple_nodes():
+            if nd.ast is None:
+                continue
+            for x in ast.walk(nd.ast):
+                if not isinstance(x, ast.Call):
+                    continue
+                if isinstance(x.func, ast.Name) and x.func.id == g.name and not x.args:
+                    out.append(nd)
+                elif x.args and isinstance(x.args[0], ast.Name) and x.args[0].id == g.name and \
+                        callback_invoked(ctx, cls, U(x.func), selfn):
+                    out.append(nd)
+        return out
+    return []
+
+
 @rule("R-NET-ORDER", floor=6)
 def r_net_order(ctx: RuleCtx, col: Collector):
     """On every path, Network.response runs every module's response() iterating the module list forward,
@@ -148,9 +181,13 @@ def r_net_order(ctx: RuleCtx, col: Collector):
             inv = set(ev["called"]) | {a for a, callee in ev["passed"] if callback_invoked(ctx, net, callee, selfn)}
             if meth not in inv:
                 continue
-            st_node = cfg.node_of(ev["node"])
-            if st_node is None:
-                continue
+            st_nodes = [cfg.node_of(ev["node"])]
+            if st_nodes[0] is None:
+                # the sweep sits in a local closure: it runs where the closure is invoked (directly, or handed to a
+                # helper that calls its first parameter on every path), provided every path through the closure sweeps
+                st_nodes = _closure_run_nodes(ctx, net, f, cfg, ev["node"], selfn)
+                if not st_nodes:
+                    continue
             construct = stmt_key(ev["node"])
             if ev["filtered"] or ev["dir"] == "partial":
                 bad = True
@@ -162,7 +199,7 @@ def r_net_order(ctx: RuleCtx, col: Collector):
                         f"Network.{meth} iterates the modules {'forward' if ev['dir'] == 'fwd' else 'in reverse'}; "
                         f"{'back-propagation must run in reverse order of the response' if meth == 'sensitivity' else 'the response must run in construction order'}")
             else:
-                good_nodes.append(st_node)
+                good_nodes += st_nodes
                 col.ok(where_of(f), f.rel, line_of(ev["node"]), construct, f"{meth}() over all modules, direction {ev['dir']}")
         if not cfg.must_pass(cfg.entry, cfg.exit, good_nodes):
             path = cfg.find_path(cfg.entry, cfg.exit, blocked=good_nodes)
@@ -375,8 +412,7 @@ def r_skip_unseeded(ctx: RuleCtx, col: Collector):
                         x.func.attr in ("_sensitivity", "vjp_fn"):
                     targets.append((nd, x))
         if not targets:
-            col.bad(where_of(f), f.rel, line_of(f.node), f"{f.short}: back-propagation call not found",
-                    "cannot locate the call that computes the input sensitivities")
+            raise AnalysisError(f"{f.short}: cannot locate the call that computes the input sensitivities")
         for nd, x in targets:
             t = _guarded_by_skip(cfg, nd, lambda k: k == "all-none")
             if t is not None:
@@ -446,7 +482,7 @@ def r_copy_first(ctx: RuleCtx, col: Collector):
                 else:
                     col.ok(where_of(f), f.rel, line_of(st), stmt_key(st), "stored value is fresh memory")
         if n == 0:
-            col.bad(where_of(f), f.rel, line_of(f.node), f"{f.short}: no first-contribution store", "anchor not found")
+            raise AnalysisError(f"{f.short}: no first-contribution store found")
 
 
 # ---------------------------------------------------------------------------------------------- seed order
@@ -477,8 +513,7 @@ def r_seed_order(ctx: RuleCtx, col: Collector):
         calls = [x for x in ast.walk(f.node) if isinstance(x, ast.Call) and isinstance(x.func, ast.Attribute)
                  and x.func.attr == hook and isinstance(x.func.value, ast.Name) and x.func.value.id == selfn]
         if not calls:
-            col.bad(where_of(f), f.rel, line_of(f.node), f"Module.{meth}: no call of {hook}", "anchor not found")
-            continue
+            raise AnalysisError(f"Module.{meth}: no call of {hook} found")
         for c in calls:
             ok = False
             why = "arguments are not the starred list of all signals"
@@ -504,18 +539,18 @@ def r_seed_order(ctx: RuleCtx, col: Collector):
     selfn = m.self_name(f)
     found = False
     for loop in [n for n in ast.walk(f.node) if isinstance(n, ast.For)]:
+        le = LoopElems(loop.target, loop.iter)
         for st in loop.body:
             if isinstance(st, ast.Assign) and len(st.targets) == 1 and isinstance(st.targets[0], ast.Attribute) \
                     and st.targets[0].attr == "state":
                 found = True
-                it = loop.iter
-                ok = (isinstance(it, ast.Call) and isinstance(it.func, ast.Name) and it.func.id == "enumerate"
-                      and isinstance(loop.target, ast.Tuple) and len(loop.target.elts) == 2
-                      and norm(st.targets[0].value) == f"{selfn}.sig_out[{U(loop.target.elts[0])}]"
-                      and norm(st.value) == U(loop.target.elts[1]))
+                # receiver and value are the elements at the same position of self.sig_out and of the result list
+                recv, val = le.denotes(st.targets[0].value), le.denotes(st.value)
+                ok = recv == f"{selfn}.sig_out" and val is not None
                 if ok:
-                    src = _strip_parse(it.args[0])
-                    if isinstance(src, ast.Name):
+                    src = _strip_parse(ast.parse(val, mode="eval").body)
+                    ok = isinstance(src, ast.Name)
+                    if ok:
                         defs = [_strip_parse(d) for d in _reaching_simple_def(f.node, src.id)]
                         ok = len(defs) == 1 and isinstance(defs[0], ast.Call) and U(defs[0].func) == f"{selfn}._response"
                 if ok:
@@ -524,7 +559,7 @@ def r_seed_order(ctx: RuleCtx, col: Collector):
                     col.bad(where_of(f), f.rel, line_of(st), stmt_key(st),
                             "Module.response: cannot show that output k receives result k of _response")
     if not found:
-        col.bad(where_of(f), f.rel, line_of(f.node), "Module.response: no output assignment loop", "anchor not found")
+        raise AnalysisError("Module.response: no loop assigning the output states found")
 
 
 # -------------------------------------------------------------------------------------------------- reset
@@ -569,6 +604,9 @@ def r_reset(ctx: RuleCtx, col: Collector):
     target = f"{selfn}.sensitivity"
 
     def step(nd: Node, st):
+        return step_for(nd, st, target)
+
+    def step_for(nd: Node, st, target):
         a = nd.ast
         if nd.kind == STMT and isinstance(a, ast.Assign):
             for t in a.targets:
@@ -593,11 +631,64 @@ def r_reset(ctx: RuleCtx, col: Collector):
     def edge_ok(nd, succ, lab, st):
         return True
 
-    # refine on the `is None` test by splitting the state at TEST nodes
+    # helper methods of the class that clear the sensitivity themselves and report success as their return value
+    # (`if not self._zero(): <fallback>`): summarised per (exit state, returned constant) and applied at the test
+    def helper_call(test: ast.AST):
+        neg = False
+        while isinstance(test, ast.UnaryOp) and isinstance(test.op, ast.Not):
+            test, neg = test.operand, not neg
+        if isinstance(test, ast.Call) and isinstance(test.func, ast.Attribute) and isinstance(test.func.value, ast.Name) \
+                and test.func.value.id == selfn and not test.args and not test.keywords:
+            g = m.resolve_method(sig, test.func.attr)
+            if g is not None and g.cls is not None and m.self_name(g):
+                return g, neg
+        return None
+
+    _summaries: Dict[Tuple[str, str], Set[Tuple[str, Optional[bool]]]] = {}
+
+    def summary(g: FuncInfo, st: str):
+        key = (g.qual, st)
+        if key in _summaries:
+            return _summaries[key]
+        _summaries[key] = set()
+        gs = m.self_name(g)
+        gcfg = ctx.flow.cfg(g)
+
+        def gstep(nd: Node, s_):
+            # same transfer function, for the helper's own `self`
+            return step_for(nd, s_, f"{gs}.sensitivity")
+        gat = run_typestate(gcfg, [st], gstep, flag_sensitive=True)
+        out: Set[Tuple[str, Optional[bool]]] = set()
+        for nd in gcfg.simple_nodes():
+            if nd.kind == STMT and isinstance(nd.ast, ast.Return):
+                v = nd.ast.value
+                rv = bool(v.value) if isinstance(v, ast.Constant) else (False if v is None else None)
+                for s_, _f in gat[nd]:
+                    out.add((s_, rv))
+        if not any(isinstance(x, ast.Return) for x in ast.walk(g.node)) or any(
+                True for s_, _f in gat[gcfg.exit] if False):
+            for s_, _f in gat[gcfg.exit]:
+                out.add((s_, False))
+        _summaries[key] = out
+        return out
+
     def step2(nd: Node, st):
+        if isinstance(st, tuple):
+            st = st[0]                      # the tag only lives on the edge out of the test
+        if nd.kind == TEST and nd.ast is not None:
+            hc = helper_call(nd.ast)
+            if hc is not None:
+                g, neg = hc
+                return [(s_, (None if rv is None else (rv != neg))) for s_, rv in summary(g, st)] or [st]
         return step(nd, st)
 
-    at = run_typestate(cfg, ["UNKNOWN"], step2, flag_sensitive=True)
+    def edge_ok2(nd, succ, lab, st):
+        if isinstance(st, tuple) and st[1] is not None and lab in ("T", "F"):
+            return (lab == "T") == st[1]
+        return True
+
+    at_raw = run_typestate(cfg, ["UNKNOWN"], step2, flag_sensitive=True, edge_ok=edge_ok2)
+    at = {nd: {((s_[0] if isinstance(s_, tuple) else s_), fc) for s_, fc in v} for nd, v in at_raw.items()}
     # states at exit; the flag facts tell us when `self.sensitivity is None` is known true
     exit_states = set()
     for st, facts in at[cfg.exit]:
